@@ -3,14 +3,18 @@
 package server
 
 import (
+	"bytes"
+	"encoding/base64"
 	"errors"
 	"fmt"
 
+	"github.com/cbeuw/Cloak/internal/common"
 	"github.com/cbeuw/Cloak/internal/vnet"
 	"github.com/cbeuw/Cloak/internal/vrt"
 	"github.com/cbeuw/Cloak/internal/vrt/sync"
 	"github.com/cbeuw/Cloak/internal/vrt/time"
 	"github.com/cbeuw/Cloak/internal/vx"
+	rtime "time"
 )
 
 // captureHello runs the real client handshake against a connection nobody answers and returns the
@@ -52,6 +56,41 @@ func (r *e2eRig) captureHello(uid []byte, sid uint32, browser string) []byte {
 	return first
 }
 
+// sealedOf extracts the 96 bytes that carry the authentication (ephemeral key, sealed block) from a
+// TLS first packet.
+func sealedOf(hello []byte) []byte {
+	ch, err := parseClientHello(hello)
+	if err != nil {
+		panic(err)
+	}
+	ks, err := parseKeyShare(ch.extensions[[2]byte{0x00, 0x33}])
+	if err != nil {
+		panic(err)
+	}
+	return append(append(append([]byte{}, ch.random...), ch.sessionId...), ks...)
+}
+
+// asWebSocket re-wraps the sealed material of a captured TLS hello as a WebSocket upgrade request:
+// something anyone who saw the hello can do without any key.
+func asWebSocket(hello []byte) []byte {
+	return []byte("GET / HTTP/1.1\r\nHost: example.com\r\nUpgrade: websocket\r\nConnection: Upgrade\r\nSec-WebSocket-Key: AAAAAAAAAAAAAAAAAAAAAA==\r\nSec-WebSocket-Version: 13\r\nhidden: " +
+		base64.StdEncoding.EncodeToString(sealedOf(hello)) + "\r\n\r\n")
+}
+
+// asTLS re-wraps 96 sealed bytes into the shape of a ClientHello, using a captured hello as template.
+func asTLS(template []byte, sealed []byte) []byte {
+	old := sealedOf(template)
+	out := append([]byte{}, template...)
+	for part := 0; part < 3; part++ {
+		i := bytes.Index(out, old[part*32:part*32+32])
+		if i < 0 {
+			panic("template field not found")
+		}
+		copy(out[i:], sealed[part*32:part*32+32])
+	}
+	return out
+}
+
 // keyBit255Variant flips the top bit of the ephemeral public key carried in ClientHello.random.
 func keyBit255Variant(hello []byte) []byte {
 	// record header(5) + handshake header(4) + version(2) = 11; random is the next 32 bytes
@@ -69,6 +108,7 @@ func init() {
 		steps := []time.Duration{time.Second, 179 * time.Second, 181 * time.Second, 359 * time.Second, 361 * time.Second, 12*time.Hour - time.Second, 12 * time.Hour}
 		phases := []time.Duration{0, 12*time.Hour - 400*time.Second, 12*time.Hour - 2*time.Second}
 		withVariant := c.P("variant", "1") == "1"
+		cross := c.P("cross", "0") == "1"
 		sc := &vrt.Scenario{
 			Opt: vrt.Options{HorizonNs: int64(100 * time.Hour), StepCap: 2000000},
 			Main: func() {
@@ -83,10 +123,14 @@ func init() {
 						pkt[id] = r.captureHello(uidOf(id), uint32(10+id), "firefox")
 					}
 					data := pkt[id]
-					if variant {
+					var tr Transport = TLS{}
+					if variant && cross {
+						// the same sealed block, presented on the other transport
+						data, tr = asWebSocket(data), WebSocket{}
+					} else if variant {
 						data = keyBit255Variant(data)
 					}
-					_, _, err := AuthFirstPacket(data, TLS{}, r.sta)
+					_, _, err := AuthFirstPacket(data, tr, r.sta)
 					if err == nil {
 						accepted[id]++
 						if accepted[id] > 1 {
@@ -166,6 +210,50 @@ func init() {
 		return vx.RunSched(c, sc, nil)
 	}})
 
+	// the sealed block of a captured handshake re-wrapped for the other transport, both directions
+	vx.Register(&vx.Scenario{Name: "replay.crosstransport", Prop: "C08", Run: func(c *vx.Ctx) *vx.Report {
+		rep := &vx.Report{Job: c.Job, Engine: "enum", Outcomes: map[string]int64{}, Exhaustive: true}
+		uid := uidOf(0)
+		tlsPkt, r := captureFirst(hsCase{Transport: "direct", Browser: "firefox", Method: "plain", ProxyMethod: "shadowsocks", SID: 3, ServerName: "example.com"}, uid)
+		wsPkt, _ := captureFirst(hsCase{Transport: "cdn", Browser: "chrome", Method: "plain", ProxyMethod: "shadowsocks", SID: 4, ServerName: "example.com"}, uid)
+		template, _ := captureFirst(hsCase{Transport: "direct", Browser: "chrome", Method: "plain", ProxyMethod: "shadowsocks", SID: 5, ServerName: "example.com"}, uid)
+		type pres struct {
+			name string
+			data []byte
+			tr   Transport
+		}
+		cases := [][]pres{
+			{{"tls", tlsPkt, TLS{}}, {"same block as websocket", asWebSocket(tlsPkt), WebSocket{}}},
+			{{"tls as websocket first", asWebSocket(tlsPkt), WebSocket{}}, {"then the original tls", tlsPkt, TLS{}}},
+			{{"websocket", wsPkt, WebSocket{}}, {"same block as tls", asTLS(template, hiddenOf(wsPkt)), TLS{}}},
+			{{"websocket as tls first", asTLS(template, hiddenOf(wsPkt)), TLS{}}, {"then the original websocket", wsPkt, WebSocket{}}},
+			{{"tls", tlsPkt, TLS{}}, {"tls again", tlsPkt, TLS{}}},
+			{{"websocket", wsPkt, WebSocket{}}, {"websocket again", wsPkt, WebSocket{}}},
+		}
+		for _, seq := range cases {
+			sta := &State{StaticPv: r.sta.StaticPv, UsedRandom: map[[32]byte]int64{}, WorldState: common.WorldState{Now: rtime.Now}}
+			acc := 0
+			var names []string
+			for _, p := range seq {
+				_, _, err := AuthFirstPacket(p.data, p.tr, sta)
+				if err == nil {
+					acc++
+				}
+				names = append(names, fmt.Sprintf("%s:%v", p.name, err == nil))
+				rep.Transitions++
+			}
+			rep.Executions++
+			if acc != 1 {
+				rep.Violations = append(rep.Violations, vx.Violation{Clause: "accepted-at-most-once", Sig: vx.Sig(c.Job, "accepted-at-most-once"), Msg: fmt.Sprintf("presentations %v: %d accepted, want exactly the first", names, acc)})
+				rep.Exhaustive = false
+			}
+			rep.Outcomes[fmt.Sprint(names)]++
+		}
+		rep.States = rep.Executions
+		rep.Samples = append(rep.Samples, "tls hello re-wrapped as websocket GET and vice versa")
+		return rep
+	}})
+
 	vx.RegisterJobs("C08", func(tier string) []vx.Job {
 		q := tier == "quick"
 		b := func(quick, thorough int) int {
@@ -177,6 +265,8 @@ func init() {
 		jobs := []vx.Job{
 			{Scenario: "replay.history", Params: vx.P("depth", fmt.Sprint(b(4, 5))), Bound: 1, Weight: 9},
 			{Scenario: "replay.history", Params: vx.P("depth", fmt.Sprint(b(5, 6)), "variant", "0"), Bound: 0, Weight: 9},
+			{Scenario: "replay.history", Params: vx.P("depth", fmt.Sprint(b(3, 4)), "cross", "1"), Bound: 0, Weight: 7},
+			{Scenario: "replay.crosstransport", Weight: 2},
 			{Scenario: "replay.concurrent", Params: vx.P("threads", "3"), Bound: -1, Weight: 5},
 			{Scenario: "replay.concurrent", Params: vx.P("threads", "2", "variant", "1"), Bound: -1, Weight: 5},
 			{Scenario: "replay.concurrent", Params: vx.P("threads", "2", "atcleanup", "1"), Bound: b(2, 4), Weight: 5},
